@@ -47,10 +47,6 @@ func (b *vhBacking) toDocument(d *vhBucketDoc) *Document {
 
 func (b *vhBacking) GetDocument(ctx context.Context, docid string, level DocumentUnmarshalLevel) (*Document, error) {
 	b.loads++
-	if b.faults && vNondetBool() {
-		b.loadFails++
-		return nil, vhErrLoad
-	}
 	if b.reenter > 0 && vNondetBool() {
 		// another request runs completely while this load is in flight
 		b.reenter--
@@ -59,6 +55,11 @@ func (b *vhBacking) GetDocument(ctx context.Context, docid string, level Documen
 		// this load finishes, i.e. run after it: that schedule is one of the sequential histories
 		vAssume(!(vhDocIDs[di] == docid && op <= 2))
 		vhCacheOp(b, op, di, true)
+	}
+	// the load may fail after the other request ran
+	if b.faults && vNondetBool() {
+		b.loadFails++
+		return nil, vhErrLoad
 	}
 	d, ok := b.docs[docid]
 	if !ok {
@@ -113,8 +114,11 @@ func vhCacheOp(b *vhBacking, op int, di int, nested bool) {
 			vAssert(rev.CV != nil && rev.CV.Equal(d.cv), "Get returns the requested version")
 		} else {
 			vAssert(b.loadFails > failsBefore, "Get fails only when its own load failed (a failure is not cached)")
-			_, cached := rc.cache[CreateRevisionCacheKey(d.id, key, 0)]
-			vAssert(!cached, "nothing is cached for a failed load")
+			if e, cached := rc.cache[CreateRevisionCacheKey(d.id, key, 0)]; cached {
+				// the key may have been re-populated by the other request; the failed placeholder itself must be gone
+				v := e.Value.(*revCacheValue)
+				vAssert(v.err == nil && v.bodyBytes != nil, "nothing is cached for a failed load")
+			}
 		}
 	case 1: // GetActive
 		failsBefore := b.loadFails
